@@ -8,6 +8,7 @@ package lm
 
 import (
 	"math"
+	"unicode"
 
 	"github.com/gdamore/tcell/v2"
 	runewidth "github.com/mattn/go-runewidth"
@@ -215,6 +216,9 @@ func (m *Model) Resize(w, h int) {
 func Width(r rune) int {
 	if r < ' ' {
 		return 0
+	}
+	if unicode.Is(unicode.Cf, r) && !unicode.Is(unicode.Prepended_Concatenation_Mark, r) {
+		return 0 // format characters are non-printing (C09)
 	}
 	return runewidth.RuneWidth(r)
 }
